@@ -426,6 +426,10 @@ def rule_validator_model(chk):
         ('no-explicit-names:dest-lacks-precomputed-name', dict(dest_props=['au', 'x', 'extra', 'm', 'hs'], src_props=FULL, explicit=()), 'raised', ('EqX', 'fluid', 'hd')),
         ('no-explicit-names:source-lacks-precomputed-name', dict(dest_props=FULL, src_props=['au', 'x', 'extra', 'm', 'hd'], explicit=()), 'raised', ('EqX', 'solid', 'hs')),
         ('no-sources', dict(dest_props=['au', 'x', 'hd', 'extra'], src_props=[], sources=None), 'ok', ()),
+        # an equation without sources is validated against its destination all the same (an equation of state, a per-particle update)
+        ('no-sources:dest-lacks-explicit-name', dict(dest_props=['x', 'hd', 'extra'], src_props=[], sources=None), 'raised', ('EqX', 'fluid', 'au')),
+        ('no-sources:dest-lacks-precomputed-name', dict(dest_props=['au', 'x', 'extra'], src_props=[], sources=None), 'raised', ('EqX', 'fluid', 'hd')),
+        ('no-sources:unknown-dest', dict(dest_props=['au', 'x', 'hd'], src_props=[], sources=None, dest='nope'), 'raised', ('EqX', 'nope')),
     ]
     try:
         for label, kw, want, words in cases:
